@@ -310,7 +310,15 @@ def unit_bounded_empty_elements(U):
             shutil.rmtree(d, ignore_errors=True)
     U.bounded_result("C01.bounded.empty_list_elements", "comma lists with empty elements are stored and printed as written", "5 files of 1-6 GFF3 lines x file / reopened / memory / re-import", cases, fails)
 
-UNITS = [("bounded.empty_elements", unit_bounded_empty_elements), ("bounded.positions", unit_bounded_positions), ("columns", unit_columns), ("step_row", unit_step_row), ("order", unit_order), ("returner", unit_returner), ("unicode", unit_unicode)]
+def unit_dep_json(U):
+    """the contract of helpers._jsonify / _unjsonify that the returner and step_row units ASSUME (install_json) is discharged
+    here as well, on the real functions: compact dumps, Attributes(loads(text)), and a fresh decode on every call - so a
+    stored row read twice gives two Features that share no attribute container (same obligations as C17.json, shared)"""
+    from props import C17
+    C17.unit_json(U, prefix="C01.dep")
+
+
+UNITS = [("dep.json", unit_dep_json), ("bounded.empty_elements", unit_bounded_empty_elements), ("bounded.positions", unit_bounded_positions), ("columns", unit_columns), ("step_row", unit_step_row), ("order", unit_order), ("returner", unit_returner), ("unicode", unit_unicode)]
 try:
     from standins import C01 as _S
     UNITS = UNITS + list(_S.UNITS)
